@@ -124,6 +124,10 @@ def exact_buffer(body, buf):
     x = buf
     while x.get("k") in ("ref", "un"):
         x = unwrap(x["e"])
+    if x.get("k") == "index" and "RangeFull" in (unwrap(x["i"]).get("ty") or ""):
+        x = unwrap(x["b"])          # `&mut buf[..]` is the whole buffer
+        while x.get("k") in ("ref", "un"):
+            x = unwrap(x["e"])
     if not (x.get("k") == "path" and x["res"].get("r") == "local"):
         return False, "buffer argument %s is not a local buffer" % show(buf)
     lid = x["res"]["id"]
